@@ -34,6 +34,12 @@ def prop_of(sig):
 # (entries with a `signature_regex`: chanh signatures carry flavour and API form, so one defect has several spellings)
 KNOWN = [(f.get("id", "?"), f["property"], f["signature_regex"], f.get("witness", ""), f.get("what", ""))
          for f in json.load(open(os.path.join(VERIF, "known_findings.json")))["open"] if f.get("signature_regex")]
+# families found by the thorough-tier validation of the history-level ties, pending their merge into known_findings.json
+# (merge_findings.py, run by the lead): same shape; an entry already merged is simply listed twice
+_CHANQ = os.path.join(FIND, "chanq.entries.json")
+if os.path.exists(_CHANQ):
+    KNOWN += [(f.get("id", "?"), f["property"], f["signature_regex"], f.get("witness", ""), f.get("what", ""))
+              for f in json.load(open(_CHANQ)) if f.get("signature_regex")]
 
 def classify(ctx, tie):
     """Keep the monitor failures of this property; turn those matching a known family into known findings."""
@@ -61,7 +67,8 @@ def tie(ctx, name, cmd, drv, **kw):
 ASSUMPTIONS = [
     "chan: the model is at linearization-point granularity (one step = one atomic effect on the abstract FIFO / waiter queues); the step-level lock-free protocols (ring indices, tickets, chain links, park/unpark) are the subject of the layer-B models tied by atomic-action traces (props/spscb.py, mpsc3b.py, mpmc2b.py, rdvb.py)",
     "chan: sequentially consistent executions only (the scheduler shim runs one thread at a time)",
-    "chan: concurrent specification is deliberately weaker than an atomic FIFO where the code is: try_recv may report Empty / try_send Full while another send is in flight (claimed-but-unwritten ticket, SKIP tombstones, swap-then-link), `len`-based probes of the lock-free families are not compared in concurrent histories",
+    "chan: concurrent specification is deliberately weaker than an atomic FIFO where the code is: try_recv may report Empty / try_send Full while another send is in flight (claimed-but-unwritten ticket, SKIP tombstones, swap-then-link), `len`-based probes of the lock-free families are not compared in concurrent histories; SKIP tombstones of overshooting bounded-mpsc claims (any send form racing another) count as occupancy until the consumer walks over them, so a later try_send may report Full below capacity (only after two sends overlapped and before the consumer next walks to the end of the ring with no send in flight)",
+    "chan: operations that are several atomic steps in the code are several steps in the concurrent specification: oneshot send = claim (WRITING) / second look at receiver_dropped / publish / drop of the consumed Sender; spsc sender close = producer_dropped store / sender_count decrement (finding N6); batches on the lock-free rings move item by item",
     "chan: usize counters are 64-bit and wrap (release profile); values are distinct small integers",
 ]
 
